@@ -116,6 +116,7 @@ func runC07(rc *RunCtx) {
 		sc.ConfOneFunc = []int{0, 0, 0, 1, 2}[rc.Scen.Choose(5)]
 	}
 	sc.WrappedTimeouts = !rc.Scen.Has("cutmode") && rc.Scen.Choose(3) == 0
+	sc.DialCtxBound = sc.Kind != KSerial && !rc.Scen.Has("cutmode") && rc.Scen.Choose(4) == 0 // (the application connects with a context that lives as long as the client)
 	if sc.Kind != KSerial && !rc.Scen.Has("cutmode") && !sc.LongSilence && totalGap(sc.Chunks) <= 60*time.Millisecond && rc.Scen.Chance(1, 8) {
 		sc.ZeroNilReads = true // a non-blocking connection: empty reads return (0, nil), many of them before the reply is there
 		for i := range sc.Chunks {
